@@ -33,7 +33,7 @@ and “Parameters”: Pass State, Task State, and Parallel State.
 import sys
 assert sys.version_info >= (3, 0)  # Bomb out if not running Python3
 
-import hashlib, random, re, uuid
+import copy, hashlib, random, re, uuid
 
 """
 ASL paths use JSONPath.
@@ -213,7 +213,8 @@ def apply_resultpath(input, result, path="$"):
         )
 
     matches = re.findall(r"[^$.[\]]+", path)  # Regex to split the reference paths
-    return update_path(input, matches, result)
+    # Place a copy, so that a result that is (part of) the input does not make the input contain itself.
+    return update_path(input, matches, copy.deepcopy(result))
 
 def evaluate_payload_template(input, context, template):
     """
